@@ -339,6 +339,47 @@ fn main() {
           let _ = tokio::time::timeout(Duration::from_secs(5), ctx.term()).await;
           got == acc
         }
+        "RT" => {
+          // tcp accept-and-drop: do the reconnect attempts ever stop?
+          let (lst, ep) = vh::rawpeer::RawListener::bind_tcp().await.unwrap();
+          let s = ctx.socket(SocketType::Push).unwrap();
+          util::set_i32(&s, opt::RECONNECT_IVL, 200).await;
+          util::set_i32(&s, opt::RECONNECT_IVL_MAX, 200).await;
+          let mon = s.monitor(1024).await.unwrap();
+          let evlog: std::sync::Arc<parking_lot::Mutex<Vec<String>>> = Default::default();
+          let ev2 = evlog.clone();
+          tokio::spawn(async move {
+            let t = Instant::now();
+            while let Ok(ev) = mon.recv().await {
+              ev2.lock().push(format!("+{:?} {}", t.elapsed(), format!("{:?}", ev).chars().take(90).collect::<String>()));
+            }
+          });
+          let _ = s.connect(&ep).await;
+          let t0 = Instant::now();
+          let mut accepts = vec![];
+          while t0.elapsed() < Duration::from_secs(6) {
+            match tokio::time::timeout(Duration::from_millis(6000).saturating_sub(t0.elapsed()), lst.accept()).await {
+              Ok(Ok(c)) => {
+                accepts.push(t0.elapsed().as_millis());
+                c.set_linger0();
+                drop(c);
+              }
+              _ => break,
+            }
+          }
+          let last_gap = t0.elapsed().as_millis() - accepts.last().copied().unwrap_or(0);
+          let ok = last_gap < 1500;
+          if !ok {
+            println!("attempts STOPPED: accepts at {:?} ms (nothing for the last {} ms)", accepts, last_gap);
+            for l in evlog.lock().iter().rev().take(14).rev() {
+              println!("   {}", l);
+            }
+            let api = tokio::time::timeout(Duration::from_secs(2), s.get_option(opt::RECONNECT_IVL)).await;
+            println!("   socket API afterwards: {:?}", api.map(|r| r.map(|v| v.len())));
+          }
+          let _ = tokio::time::timeout(Duration::from_secs(5), ctx.term()).await;
+          ok
+        }
         "Q" => {
           // does ReadyPipeQueue::close() release a blocked pop() while a sender clone is still alive?
           let q = std::sync::Arc::new(rzmq::verif::Rpq::<u32>::new(4));
